@@ -16,6 +16,10 @@ class Boom(Exception):
     pass
 
 
+class BaseBoom(BaseException):
+    """a block can also be left through KeyboardInterrupt / SystemExit-like exceptions"""
+
+
 def build_dicts(shape, L):
     """
     shape["dicts"]: list of lists of (name index, leaf name | ('const', v))
@@ -116,14 +120,16 @@ def h_headers(shape, L):
                         i = run(i + 1)
                         if ops[i - 1][0] == "raise_leave":
                             raise Boom()
-                except Boom:
+                        if ops[i - 1][0] == "base_leave":
+                            raise BaseBoom()
+                except (Boom, BaseBoom):
                     pass
                 state["stack"].pop()
                 after = transport.additional_headers
                 if len(after) != len(before) or any(a is not b for a, b in zip(after, before)):
                     state["fail"] = state["fail"] or 12  # not restored
                 continue
-            if op[0] in ("leave", "raise_leave"):
+            if op[0] in ("leave", "raise_leave", "base_leave"):
                 return i + 1
             if op[0] == "call":
                 code = do_call(op[1])
@@ -134,7 +140,7 @@ def h_headers(shape, L):
 
     try:
         run(0)
-    except Exception:  # noqa
+    except BaseException:  # noqa
         return 13
     if state["fail"]:
         return state["fail"]
